@@ -54,6 +54,7 @@ impl Rational {
 // properties prescribe (nothing is assumed about how close they are)
 pub uninterp spec fn f_of_int_fast(i: int) -> f64;
 pub uninterp spec fn f_of_q_fast(q: Rational) -> f64;
+pub uninterp spec fn f_of_q_dashu(q: Rational) -> f64;
 impl Integer { #[verifier::external_body] pub fn to_f64_fast(&self) -> (r: f64) ensures r == f_of_int_fast(self.v()) { unimplemented!() } }
 impl Rational { #[verifier::external_body] pub fn to_f64_fast(&self) -> (r: f64) ensures r == f_of_q_fast(*self) { unimplemented!() } }
 #[verifier::external_body] pub struct Approx { _p: u8 }
@@ -67,7 +68,10 @@ impl Integer {
 impl Rational {
     #[verifier::external_body] pub fn cmp(&self, o: &Rational) -> (r: Ordering) ensures r == q_cmp(*self, *o) { unimplemented!() }
     #[verifier::external_body] pub fn eq(&self, o: &Rational) -> (r: bool) ensures r == (q_cmp(*self, *o) is Equal) { unimplemented!() }
-    #[verifier::external_body] pub fn to_f64(&self) -> (r: Approx) ensures r.val() == f_of_q(*self) { unimplemented!() }
+    // dashu-ratio's RBig::to_f64: its OWN function of the rational. That it is the correctly rounded conversion
+    // f_of_q is NOT assumed here: it is the separate obligation lemma_dashu_ratio_to_f64_correctly_rounded (which is false
+    // for dashu-ratio 0.4.2 -- a recorded finding)
+    #[verifier::external_body] pub fn to_f64(&self) -> (r: Approx) ensures r.val() == f_of_q_dashu(*self) { unimplemented!() }
 }
 // TypedArenaPtr compares by pointee (src/arena.rs: ptr equality || **self == **other; Ord by deref)
 impl TypedArenaPtr<Integer> {
